@@ -396,7 +396,14 @@ def search(ctx, q, seed=0, budget=300, max_calls=20000, stop_on_first=True):
     names = [p for p, _ in c.params]
     gnames = [(k, v) for cl in c.of('ghost') for k, v in cl.kw.items()]
     cases = c.options.get('cases') or {}
-    cnames = sorted(cases)
+    import inspect
+    try:
+        real = set(inspect.signature(ctx.resolve(q)).parameters)
+    except (TypeError, ValueError):
+        real = None
+    # case names that are not parameters of the real function (e.g. `init`: which constructor case `self` comes from, `assign_shape`)
+    # only steer the symbolic verification; concretely the object domain already contains every kind of model
+    cnames = sorted(k for k in cases if real is None or k in real)
     names = names + cnames
     try:
         doms = [gen_values(ast.unparse(a), rng, None, budget) for _, a in c.params]
